@@ -33,50 +33,3 @@ Fixpoint pos_of (walk : list (bool * bool)) (acc : Z) : option Z :=
     let acc' := if counted then acc + 1 else acc in
     if is_el then (if counted then Some acc' else None) else pos_of w acc'
   end.
-
-(* ---- bounded-exhaustive check, inside the kernel ---- *)
-Fixpoint all_masks (n : nat) : list (list bool) :=
-  match n with
-  | O => [[]]
-  | S k => flat_map (fun m => [true :: m; false :: m]) (all_masks k)
-  end.
-Definition zrange (lo hi : Z) : list Z := map (fun i => lo + Z.of_nat i) (seq 0 (Z.to_nat (hi - lo + 1))).
-
-(* walks: `before` counted-masks of length k, then el (counted), then `after` further nodes (never inspected) *)
-Definition walks (maxlen : nat) : list (list (bool * bool) * Z) :=
-  flat_map (fun k =>
-    flat_map (fun m =>
-      map (fun extra => (map (fun c => (c, false)) m ++ [(true, true)] ++ repeat (true, false) extra,
-                         Z.of_nat (k + 1 + extra)))
-          [0%nat; 1%nat; 3%nat])
-      (all_masks k))
-    (seq 0 (S maxlen)).
-
-Definition check_one (a b : Z) (var : bool) (w : list (bool * bool) * Z) : bool :=
-  match pos_of (fst w) 0, nth_pure a b var (snd w) (fst w) with
-  | Some pos, Some r => Bool.eqb r (nth_closed a b var pos)
-  | _, _ => false
-  end.
-
-Definition check_all (amax : Z) (maxlen : nat) : bool :=
-  forallb (fun a => forallb (fun b => forallb (fun var => forallb (check_one a b var) (walks maxlen))
-                                              [true; false])
-                            (zrange (- amax) amax))
-          (zrange (- amax) amax).
-
-(* All integers A, B in [-12, 12], every sibling sequence of up to 8 nodes before the element with
-   every counted/not-counted pattern, both `n` forms: the loop agrees with the closed form.
-   (A finite statement, decided by computation inside the kernel; the bound is part of the statement.) *)
-Theorem nth_core_exact_bounded : check_all 12 8 = true.
-Proof. vm_compute. reflexivity. Qed.
-
-Lemma check_all_sound amax maxlen : check_all amax maxlen = true ->
-  forall a b var w, In a (zrange (- amax) amax) -> In b (zrange (- amax) amax) -> In w (walks maxlen) ->
-  check_one a b var w = true.
-Proof.
-  unfold check_all. intros H a b var w Ha Hb Hw.
-  rewrite forallb_forall in H. specialize (H a Ha).
-  rewrite forallb_forall in H. specialize (H b Hb).
-  rewrite forallb_forall in H. specialize (H var ltac:(destruct var; simpl; auto)).
-  rewrite forallb_forall in H. exact (H w Hw).
-Qed.
